@@ -108,6 +108,13 @@ def run(ctx):
     from . import C15
     ctx.do(C15.rule_one_writer_one_reader, rule_id="C10.printer-complete")
     ctx.do(rule_path_step_kinds)
+    # building an expression leaves its operands as they were (an operand can be used in several expressions)
+    from .pitfalls import rule_no_alias_then_mutate
+
+    def _alias(ctx_):
+        if rule_no_alias_then_mutate(ctx_, "C10.definite-init", ("stix2.patterns",)) < 20:
+            raise AnalysisError("fewer than 20 methods of the pattern model examined: anchors lost")
+    ctx.do(_alias)
     from .hidden_state import rule_no_hidden_state
     ctx.do(rule_no_hidden_state, "C10.history-independence")
 
